@@ -332,6 +332,21 @@ def scripted_schedule(sd, net, t):
         plain = {i: [float(valid_pilot(stations[i]["evse"], random.Random(f"{sd['seed']}:{rel}:{i}:{j}"))) for j in range(L)]
                  for i in sorted(stations)}
         return plain, plain
+    if sd.get("mode") == "cancel":
+        # vehicle-to-grid style schedules on EVSEs whose range extends below zero: in most periods the pilots of the stations
+        # cancel exactly (+x on one half, -x on the other), some periods are all zero, some are one-sided
+        ids = sorted(stations)
+        c = r0.random()
+        x = r0.choice([8.0, 16.0, 5.5, 12.25])
+        if c < 0.25:
+            plain = {i: [0.0] for i in ids}
+        elif c < 0.8:
+            plain = {i: [x if k % 2 == 0 else -x] for k, i in enumerate(ids)}
+            if len(ids) % 2:
+                plain[ids[-1]] = [0.0]
+        else:
+            plain = {i: [r0.choice([x, -x, 0.0])] for i in ids}
+        return {k: list(v) for k, v in plain.items()}, plain
     if r0.random() < sd.get("p_empty", 0.15):
         return {}, {}
     L = r0.randint(1, sd.get("max_len", 3))
